@@ -15,7 +15,7 @@ RULE = ("cases = (cone, list of points); oracle = brute-force dominance matrix (
         ">=3 points with at least one strictly dominated point and (a duplicate value or >=2 Pareto values)")
 ASSUMPTIONS = [
     "cones are pointed and solid (VOPy's standing assumption)",
-    "all coordinates are dyadic rationals with < 30 significant bits (times a power of two), so every facet product is exact in float64",
+    "coordinates are dyadic rationals with < 30 significant bits (times a power of two), or full-mantissa values within a few ulps of each other: in both cases every difference a-b and every facet product W(a-b) is exact in float64 for the dyadic cones",
 ]
 
 EXACT_CONES_2D = [
@@ -107,8 +107,16 @@ def enum_small(tier):
 def st_case(draw, maxn=60):
     spec = draw(gen.st_cone())
     m = gen.spec_dim(spec)
-    style = draw(st.sampled_from(["lattice", "lattice", "chain", "dups", "wide"]))
+    style = draw(st.sampled_from(["lattice", "lattice", "chain", "dups", "wide", "ulps"]))
     n = draw(st.integers(1, maxn))
+    if style == "ulps":
+        # full-mantissa values that differ by a few units in the last place: differences are exact, the values'
+        # own facet products are not (an implementation must compare W(a-b), not Wa with Wb)
+        e = draw(st.sampled_from([-20, 0, 10, 20, 30]))
+        B = [draw(st.integers(2 ** 52 + 64, 2 ** 53 - 64)) for _ in range(m)]
+        sg = [draw(st.sampled_from([1, -1])) for _ in range(m)]
+        ks = draw(st.lists(st.lists(st.integers(-6, 6), min_size=m, max_size=m), min_size=n, max_size=n))
+        return {"cone": spec, "points": [[s_ * float(b + k) * 2.0 ** (e - 52) for b, k, s_ in zip(B, kk, sg)] for kk in ks]}
     if style == "lattice":
         span = draw(st.integers(1, 6))
         pt = st.lists(gen.st_dyadic(-span, span, 4), min_size=m, max_size=m)
